@@ -11,6 +11,7 @@ import (
 	"errors"
 	"fmt"
 	"io"
+	"os"
 	"runtime"
 	"strconv"
 	"strings"
@@ -490,13 +491,13 @@ func shorten(line string) string {
 // the property, stated directly: when may a side report success, and with what result?
 
 type legit struct {
-	ok      bool
-	why     string
-	id      []byte
-	ver     uint32
-	client  string
-	noVerF  bool // the credentials frame carries no version field
-	noCliF  bool
+	ok     bool
+	why    string
+	id     []byte
+	ver    uint32
+	client string
+	noVerF bool // the credentials frame carries no version field
+	noCliF bool
 }
 
 // readFrame: the frame discipline of the property (type whitelist, 200 KiB bound, complete frame).
@@ -1545,6 +1546,16 @@ func Run(r *corr.Run) {
 	r.SetRule("a case counts when at least one real handshake side consumed at least one byte; distinctness by configuration + delivered bytes")
 	w := newWorld(r)
 	w.boundaries()
+	if os.Getenv("VERIF_PROPERTY") == "C11" {
+		// C11 only needs the frame reader under hostile streams: boundaries + raw peers
+		n := 0
+		for r.TimeLeft() && n < r.Pick(400, 20000) {
+			n++
+			w.rawRandom()
+		}
+		r.Note("C11 mode: rounds=%d", n)
+		return
+	}
 	// version × accepted-list × mode matrix, exhaustive over a small alphabet
 	vers := []uint32{0, 12, 13}
 	lists := [][]uint32{nil, {0}, {13}, {12, 13}, {0, 12, 13}}
